@@ -44,13 +44,13 @@ CLAIMS.update({
  'C10': dict(text="Coq theorems for every well-formed source header and every box, over the cropper as GENERATED from cropping.py: exactly the out-of-range / empty / inverted / unsupported requests raise IndexError before the output is opened; a served crop is the request widened to block boundaries and clipped; every padded output voxel has the provenance of the corresponding source voxel (unit bytes copied from the specification position); the regenerated header states the box, is well-formed and describes the bytes that follow; footer entry (i,x) is source entry (i+i0,x+x0) with the stride the reader derives. Known finding D7h (start time stored as whole ms).",
              note="decoded floats abstract; numpy reshape/slice indexing and struct.pack ranges hand-modelled",
              technique="Coq proof over generated cropper + correspondence of output bytes + restriction oracle"),
- 'C15': dict(text="Coq theorems by induction over ANY history (any number of readers, emulators, opens/closes, any chunk-cache capacity >= 1, preload on/off): every cached value equals the pure function of its key (invariant), so the results of a history equal those of a memory-less machine; LRU tables never exceed capacity nor hold duplicate keys; seek-then-read makes the shared handle position irrelevant. Cache tables, keys (all start with self), clear lists and the attribute analysis of cached bodies are GENERATED from loader.py/read.py.",
+ 'C15': dict(text="Coq theorems by induction over ANY history (any number of readers, emulators, opens/closes, any chunk-cache capacity >= 1, preload on/off): every cached value equals the pure function of its key (invariant), so the results of a history equal those of a memory-less machine; LRU tables never exceed capacity nor hold duplicate keys; seek-then-read makes the shared handle position irrelevant. Cache tables, keys (all start with self), clear lists and the attribute analysis of cached bodies are GENERATED from loader.py/read.py. C15a: over a static census, GENERATED from the source, of every attribute, class attribute, module global and shared default that each method of the 23 classes can write (transitively through the call graph), every public method writes only cache state covered by the soundness invariant or a listed exception with its evidence; hence for any finite sequence of public calls the non-cache state is what the constructor left (induction), and a result can depend on the history only through the caches; refuted-witness theorems for D45-D47.",
              note="method bodies abstract programs; their purity guarded by generator analysis, oracle and pins; no concurrency",
              technique="Coq proof (invariant by induction over operations) over generated cache tables + history differential testing against fresh readers"),
  'C16': dict(text="Coq theorems for EVERY n >= 1, every pair of queue capacities >= 1 and every schedule of the GENERATED thread programs (operation order extracted from compressor, writer, run_conversion_loop) under a small-step semantics of bounded FIFO queues with task_done/join: no deadlock, every execution has at most 8n+6 steps, at return the file is header, blocks 0..n-1 in order, flush, the file is always a prefix of it, and no thread has an enabled step after return.",
              note="queue.Queue/threading semantics is a hand model validated by replaying model schedules on the real code under a cooperative scheduler",
              technique="Coq proof (invariant + variant over an interleaving semantics) over generated thread programs + schedule replay on the real code"),
- 'C19': dict(text="Coq theorems over define_blockshape* as GENERATED (exact rationals, explicit ZeroDivisionError), for ALL integer/float/string inputs: an accepted request is well-formed (rate in the 8 values, dims powers of two >= 4, first 1 in 2D, product x rate = 32768 bits) and keeps every fixed parameter; a request with a well-formed supported completion is accepted and returns the unique one; a refused request has none; the header written for an accepted configuration satisfies wf3/wf2 (the hypotheses of C01-C03). Known finding D13 (valid 2D settings below 1 bit are refused).",
+ 'C19': dict(text="Coq theorems over define_blockshape* as GENERATED (exact rationals, explicit ZeroDivisionError), for ALL integer/float/string inputs: an accepted request is well-formed (rate in the 8 values, dims powers of two >= 4, first 1 in 2D, product x rate = 32768 bits) and keeps every fixed parameter; a request with a well-formed supported completion is accepted and returns the unique one; a refused request has none; the header written for an accepted configuration satisfies wf3/wf2 (the hypotheses of C01-C03). Known finding D13 (valid 2D settings below 1 bit are refused). C19c: a CLI invocation is the API call: for every assignment of the sgy2sgz options each value reaches its own keyword of SegyConverter(...) / run(...) unchanged (wiring GENERATED from cli.py), defaults are the API defaults, a malformed option calls nothing, and the setting is accepted / rejected / resolved by the same resolve as the API setting; all eight rates are reachable through the integer convention (-2, -4).",
              note="Q vs binary64 agreement checked on every correspondence case; run() ordering is an AST check + file oracle",
              technique="Coq proof over generated resolver + exhaustive-grid correspondence + conformance/fidelity oracle"),
 })
@@ -58,7 +58,7 @@ CLAIMS.update({
  'C05': dict(text="Coq theorems: integer axes - for every start, non-zero step (either sign) and count whose values fit int32, the axis the GENERATED reader regenerates from the fields the GENERATED writer stores equals the source axis (two's-complement wrap explicit; unbounded, by arithmetic); counts, trace count, structured flag. Sample axis - binary64 modelled with Coq primitive floats: every interval 1..65535 us (start 0) is stored exactly and the regenerated samples are bit-equal, proved by vm_compute on the finite domain written in the statement; other (interval, start) combinations are sampled by the harness.",
              note="PrimFloat/Uint63 kernel primitives (listed by Print Assumptions) model binary64; struct/numpy/segyio formula hand semantics",
              technique="Coq proof (modular arithmetic, unbounded) + finite-domain float proof by vm_compute + correspondence on float.hex literals"),
- 'C11': dict(text="Coq theorems over the windowed converter as GENERATED (window acceptance, Geometry3d ranges, header allocation, make_header fields, io_thread_func / read_line index arithmetic): for every source size, every window 0 <= min < max <= n on both axes (ordinal 0 included), both SEG-Y readers and all detection modes, converting with the window yields the same container model (dims, origins, increments, trace count, header arrays entry by entry, every plane-set buffer cell, hashed rows) as converting the restricted source alone; guard tables_agree for heuristic detection (known finding D6-heuristic-detection-from-source-corners).",
+ 'C11': dict(text="Coq theorems over the windowed converter as GENERATED (window acceptance, Geometry3d ranges, header allocation, make_header fields, io_thread_func / read_line index arithmetic): for every source size, every window 0 <= min < max <= n on both axes (ordinal 0 included), both SEG-Y readers and all detection modes, converting with the window yields the same container model (dims, origins, increments, trace count, header arrays entry by entry, every plane-set buffer cell, hashed rows) as converting the restricted source alone; guard tables_agree for heuristic detection (known finding D6-heuristic-detection-from-source-corners). C11c: the window the CLI hands to the converter is its four options (a bound of 0 is a bound; a partial window is no window), so the CLI route inherits the API theorem.",
              note="traces abstract; compression is C01; reduced-I/O self-test outcome is an input",
              technique="Coq proof (index arithmetic, induction over plane sets) over generated window code + file-identity oracle against the sub-cube conversion"),
  'C17': dict(text="Coq theorems for every read plan, fault assignment (exception / short / empty, any positions, any number) and completion order: if any range read is not delivered in full the call raises, otherwise the assembled buffer is the true one, independent of the order in which parallel reads complete (permutation lemma over disjoint in-bounds splices whose slots are the GENERATED expressions of the four fan-outs); both backends pass through the GENERATED length check; every future is collected.",
